@@ -125,6 +125,9 @@ func handleVisitorGoroutines() int {
 // delay), then judges what is left.
 func finalLedger() {
 	var left []string
+	// every case has ended: an entry the hook never announced has no excuse beyond the longest delay of the code
+	quiescent := time.Now()
+	unknownDeadline := quiescent.Add(time.Duration(maxLingerS+30) * time.Second)
 	for {
 		left = left[:0]
 		live := srv.Snapshot().NatHoleSess
@@ -133,11 +136,11 @@ func finalLedger() {
 		ledger.mu.Lock()
 		for _, sid := range live {
 			r := ledger.m[sid]
-			if r == nil || r.judged {
+			if r != nil && r.judged {
 				continue
 			}
 			left = append(left, sid)
-			if now.Before(r.deadline) {
+			if r == nil && now.Before(unknownDeadline) || r != nil && now.Before(r.deadline) {
 				overdue = false
 			}
 		}
@@ -152,6 +155,10 @@ func finalLedger() {
 	byPath := map[string][]string{}
 	for _, sid := range left {
 		r := ledger.m[sid]
+		if r == nil {
+			byPath["unknown"] = append(byPath["unknown"], sid)
+			continue
+		}
 		byPath[r.path] = append(byPath[r.path], fmt.Sprintf("%s(%s, created %v ago)", sid, r.name, time.Since(r.created).Round(time.Second)))
 	}
 	ledger.mu.Unlock()
@@ -161,8 +168,11 @@ func finalLedger() {
 			l = append(l[:5], fmt.Sprintf("... %d more", len(l)-5))
 		}
 		key := "session-not-removed-after-completion"
-		if path == "timeout" {
+		switch path {
+		case "timeout":
 			key = "session-not-removed-after-timeout"
+		case "unknown":
+			key = "session-table-entry-of-unknown-origin"
 		}
 		run.Violation(key, "%d session(s) still in the controller's table after the code's own delay (%s path) + 30 s grace: %v; goroutines in HandleVisitor: %d", len(byPath[path]), path, l, handleVisitorGoroutines())
 	}
